@@ -797,3 +797,145 @@ class _LoadDatabase(Contract):
 
 register(type('LoadDatabaseFirst', (_LoadDatabase,), dict(first=True, __doc__=_LoadDatabase.__doc__)))
 register(type('LoadDatabaseFurther', (_LoadDatabase,), dict(first=False, __doc__=_LoadDatabase.__doc__)))
+
+
+# ----------------------------------------------------------------------------
+# a peptide pool to and from a FASTA file (every FASTA tool reads and writes through these two)
+# ----------------------------------------------------------------------------
+@register
+class PoolWrite(Contract):
+    """VariantPeptidePool.write(path): the file at the given path is opened for writing; every peptide of the pool is handed to the FASTA writer exactly
+    once, and the title the writer prints for a record is its description (the full header with every entry)"""
+    path, qualname, props = VPP18, 'VariantPeptidePool.write', ('C18', 'C19', 'C04')
+    assumptions = ('assumed: Bio.SeqIO.FastaIO.FastaWriter.write_record prints one record as >title and the sequence; iterating the peptide set visits every peptide once',)
+
+    def setup(self, I):
+        st = types.SimpleNamespace(log=[])
+        st.n = I.e.int('n_peptides')
+        I.e.assume(st.n >= 0)
+        zz = lambda i: i if is_z3(i) else z3.IntVal(i)
+        st.pool = SymObj('VariantPeptidePool', peptides=FnView(st.n, lambda i: SymObj('Pep18w', i=zz(i), description=SymObj('Header18w', i=zz(i)), id=SymObj('FirstWord18w', i=zz(i)), name=SymObj('FirstWord18w', i=zz(i))), tag='peptides of the pool'))
+        st.target = SymObj('OutPath18w')
+        st.args = [st.pool, st.target]
+        self._cur = st
+        return st
+
+    @property
+    def models(self):
+        c = self
+
+        def inst(reg):
+            def open_(I, a, k):
+                c._cur.log.append(('open', a[0], a[1] if len(a) > 1 else k.get('mode', 'r')))
+                return SymObj('File18w')
+            reg.ext_('open', open_)
+            reg.method_('File18w', '__enter__', lambda I, o, a, k: o)
+            reg.method_('File18w', '__exit__', lambda I, o, a, k: None)
+
+            def writer(I, a, k):
+                c._cur.log.append(('writer', a[0] if a else k.get('handle'), k.get('record2title')))
+                return SymObj('Writer18w')
+            for nm in ('Bio.SeqIO.FastaIO.FastaWriter', 'FastaIO.FastaWriter', 'Bio.SeqIO.FastaWriter'):
+                reg.ext_(nm, writer)
+            reg.ctor_('FastaWriter', writer)
+            reg.method_('Writer18w', 'write_record', lambda I, o, a, k: c._cur.log.append(('record', a[0], None)))
+        return (inst,)
+
+    def head(self, I, env, k):
+        self._cur.mark = len(self._cur.log)
+
+    def step(self, I, env, k):
+        st = self._cur
+        new = st.log[st.mark:]
+        ok = len(new) == 1 and new[0][0] == 'record' and isinstance(new[0][1], SymObj) and new[0][1].cls == 'Pep18w'
+        return [('peptide-k-handed-to-the-writer-once', new[0][1].fields['i'] == k if ok else False)]
+
+    @property
+    def loops(self):
+        return {0: LoopSpec(inv=lambda I, env, k: [], on_head=self.head, step=self.step, target_after='unknown',
+                            on_break=lambda I, env, k: [('every-peptide-is-visited', False)],
+                            on_exit=lambda I, env, n: [('all-peptides-were-written', n == self._cur.n)])}
+
+    def post_return(self, I, st, ret):
+        e = I.e
+        opens = [x for x in st.log if x[0] == 'open']
+        ws = [x for x in st.log if x[0] == 'writer']
+        e.prove('C18/pool-write/the-given-path-is-opened-once-for-writing', z3.BoolVal(len(opens) == 1 and opens[0][1] is st.target and opens[0][2] in ('w', 'wt')))
+        ok = len(ws) == 1 and isinstance(ws[0][1], SymObj) and ws[0][1].cls == 'File18w' and ws[0][2] is not None
+        title = None
+        if ok:
+            probe = SymObj('Pep18w', i=z3.IntVal(0), description=SymObj('Header18w', i=z3.IntVal(0)), id=SymObj('FirstWord18w', i=z3.IntVal(0)), name=SymObj('FirstWord18w', i=z3.IntVal(0)))
+            title = I.call(ws[0][2], [probe], {})
+        e.prove('C18/pool-write/one-writer-on-that-file-whose-title-is-the-description-of-the-record',
+                z3.BoolVal(bool(ok and isinstance(title, SymObj) and title.cls == 'Header18w')))
+
+
+class _PepSet18:
+    def __init__(self, st):
+        self.st = st
+
+    def sym_method(self, I, name, a, k):
+        if name == 'add' and len(a) == 1:
+            r = a[0]
+            self.st.log.append(('add', r, dict(r.fields) if isinstance(r, SymObj) else None))
+            return None
+        raise Unsupported(f'peptides.{name}')
+
+
+@register
+class PoolLoad(Contract):
+    """VariantPeptidePool.load(handle): every record SeqIO.parse reads from the handle (FASTA format) is added to a fresh pool exactly once, as an
+    AminoAcidSeqRecord whose id and name are its full description (the header with every entry, not only its first word); the pool is returned"""
+    path, qualname, props = VPP18, 'VariantPeptidePool.load', ('C18', 'C19', 'C04')
+    assumptions = ('assumed: Bio.SeqIO.parse(handle, fasta) yields one record per FASTA entry with the whole header line as description',)
+
+    def setup(self, I):
+        st = types.SimpleNamespace(log=[])
+        st.n = I.e.int('n_records')
+        I.e.assume(st.n >= 0)
+        zz = lambda i: i if is_z3(i) else z3.IntVal(i)
+        st.records = FnView(st.n, lambda i: SymObj('SeqRecord18l', i=zz(i), description=SymObj('Header18l', i=zz(i)), id=SymObj('FirstWord18l', i=zz(i)), name=SymObj('FirstWord18l', i=zz(i))), tag='records of the FASTA')
+        st.handle = SymObj('Handle18l')
+        st.args = [ClassRef('VariantPeptidePool', I.repo.get_class('VariantPeptidePool')), st.handle]
+        self._cur = st
+        return st
+
+    @property
+    def models(self):
+        c = self
+
+        def inst(reg):
+            def parse(I, a, k):
+                c._cur.log.append(('parse', a[0] if a else None, a[1] if len(a) > 1 else k.get('format')))
+                return c._cur.records
+            reg.ext_('Bio.SeqIO.parse', parse)
+            reg.ext_('SeqIO.parse', parse)
+            reg.ctor_('VariantPeptidePool', lambda I, a, k: SymObj('VariantPeptidePool', peptides=_PepSet18(c._cur)) if not a and not k else (_ for _ in ()).throw(Unsupported('pool with arguments')))
+        return (inst,)
+
+    def head(self, I, env, k):
+        self._cur.mark = len(self._cur.log)
+
+    def step(self, I, env, k):
+        st = self._cur
+        new = st.log[st.mark:]
+        ok = len(new) == 1 and new[0][0] == 'add' and isinstance(new[0][1], SymObj) and 'i' in new[0][1].fields
+        if not ok:
+            return [('record-k-added-once', False)]
+        f = new[0][2]
+        hdr = lambda v: isinstance(v, SymObj) and v.cls == 'Header18l' and z3.eq(z3.simplify(v.fields['i']), z3.simplify(k if is_z3(k) else z3.IntVal(k)))
+        cls = f.get('__class__')
+        return [('record-k-added-once', new[0][1].fields['i'] == k),
+                ('id-and-name-are-the-whole-header', z3.BoolVal(bool(hdr(f.get('id')) and hdr(f.get('name')) and hdr(f.get('description'))))),
+                ('added-as-an-AminoAcidSeqRecord', z3.BoolVal(getattr(cls, 'name', None) == 'AminoAcidSeqRecord'))]
+
+    @property
+    def loops(self):
+        return {0: LoopSpec(inv=lambda I, env, k: [], on_head=self.head, step=self.step, target_after='unknown',
+                            on_break=lambda I, env, k: [('every-record-is-visited', False)],
+                            on_exit=lambda I, env, n: [('all-records-were-added', n == self._cur.n)])}
+
+    def post_return(self, I, st, ret):
+        ps = [x for x in st.log if x[0] == 'parse']
+        I.e.prove('C18/pool-load/the-handle-is-parsed-once-as-FASTA-and-the-filled-pool-returned',
+                  z3.BoolVal(len(ps) == 1 and ps[0][1] is st.handle and ps[0][2] == 'fasta' and isinstance(ret, SymObj) and isinstance(ret.fields.get('peptides'), _PepSet18)))
